@@ -29,6 +29,10 @@ Definition calendar_date (y m d : Z) : bool :=
   zrange 0 9999 y && zrange 1 12 m && zrange 1 (month_days y m) d.
 Definition time_of_day (h mi s : Z) : bool := zrange 0 23 h && zrange 0 59 mi && zrange 0 59 s.
 
+Definition is_date_zero (y m d : Z) : bool := ((y =? 1) && (m =? 1) && (d =? 1))%Z.
+Definition is_datetime_zero (y m d h mi s : Z) : bool :=
+  ((y =? 1) && (m =? 1) && (d =? 1) && (h =? 0) && (mi =? 0) && (s =? 0))%Z.
+
 (* in-domain values per kind (C05/C18 "in-domain value"; C01 "accepted domain") *)
 Definition in_domain (k : kind) (v : fval) : bool :=
   match k, v with
@@ -63,10 +67,10 @@ Definition spec_bytes (k : kind) (v : fval) : option (list N) :=
   | KAddrPort, VAP (Some (a, p)) => Some (a ++ spec_le16 p)
   | KMACraw, VMAC m | KMacT, VMAC m => Some m
   | KDate, VDate y m d | KDateP, VDate y m d =>
-      if ((y =? 1) && (m =? 1) && (d =? 1))%Z then Some [0;0;0;0] else Some (spec_date_bytes y m d)
+      Some (if is_date_zero y m d then [0;0;0;0] else spec_date_bytes y m d)
   | KDateTime, VDateTime y m d h mi s | KDateTimeP, VDateTime y m d h mi s =>
-      if ((y =? 1) && (m =? 1) && (d =? 1) && (h =? 0) && (mi =? 0) && (s =? 0))%Z then Some [0;0;0;0;0;0;0]
-      else Some (spec_date_bytes y m d ++ [bcd2 (zn h); bcd2 (zn mi); bcd2 (zn s)])
+      Some (if is_datetime_zero y m d h mi s then [0;0;0;0;0;0;0]
+            else spec_date_bytes y m d ++ [bcd2 (zn h); bcd2 (zn mi); bcd2 (zn s)])
   | KSysDate, VSysDate y m d => Some [bcd2 (zn y mod 100); bcd2 (zn m); bcd2 (zn d)]
   | KSysTime, VSysTime h mi s => Some [bcd2 (zn h); bcd2 (zn mi); bcd2 (zn s)]
   | KHHmm, VHHmm h m | KHHmmP, VHHmm h m => Some [bcd2 (zn h); bcd2 (zn m)]
@@ -77,7 +81,9 @@ Definition spec_bytes (k : kind) (v : fval) : option (list N) :=
 Definition canon (k : kind) (v : fval) : fval :=
   match k, v with
   | KIP, VIP ip => VIP (if Nat.eqb (length ip) 4 then ip else skipn 12 ip)   (* 16-byte IPv4 = its 4-byte form *)
-  | KHHmmP, VNil => VNil
+  | KHHmmP, VNil => VHHmm 0 0                     (* a nil *HHmm reads as 00:00 *)
+  | KDateP, VDate y m d => if is_date_zero y m d then VNil else v   (* zero date through a pointer = "no date" *)
+  | KDateTimeP, VDateTime y m d h mi s => if is_datetime_zero y m d h mi s then VNil else v
   | _, _ => v
   end.
 
@@ -112,7 +118,7 @@ Definition spec_dec (k : kind) (b : list N) : dres :=
       match date_of_bytes b with
       | None => DFail
       | Some None => DNone
-      | Some (Some (y, m, d)) => if ((y =? 1) && (m =? 1) && (d =? 1))%Z then DNone else DVal (VDate y m d)
+      | Some (Some (y, m, d)) => if is_date_zero y m d then DNone else DVal (VDate y m d)
       end
   | KDateTime | KDateTimeP =>
       if nlist_eqb b [0;0;0;0;0;0;0] || nlist_eqb b [32;0;0;0;0;0;0] then DNone
@@ -170,10 +176,10 @@ Definition is_ptr (k : kind) : bool := match k with KDateP | KDateTimeP | KHHmmP
 
 Definition no_value (k : kind) (v : fval) : bool :=
   fval_eqb v (zero_of k) ||
-  match k, v with
-  | KDateP, VDate 1 1 1 => true
-  | KDateTimeP, VDateTime 1 1 1 0 0 0 => true
-  | _, _ => false
+  match k with
+  | KDateP => fval_eqb v date_zero
+  | KDateTimeP => fval_eqb v datetime_zero
+  | _ => false
   end.
 
 (* does the observed per-field result agree with the protocol decoding?  (obs = None: the call failed) *)
